@@ -441,6 +441,99 @@ def lr_stream(ctx, mult):
                        how="harness.props.c04.oracle_job")
 
 
+# ------------------------------------------------------------------------------------------------
+# build histories: the error stop commits the parse whatever was done with PARTS of the grammar before the Forward that
+# contains the '-' got its definition (printed, named, streamlined, copied, used in a trial parse of a sibling).
+# Expectation is constructed: on "a = 1; b = ?" the value after "b =" fails behind the error stop, so every container
+# on the path (Forward, Group, repetition / DelimitedList, MatchFirst with an Empty() fallback, Opt) must let a
+# ParseSyntaxException at the '?' through.
+# ------------------------------------------------------------------------------------------------
+HIST_WRAPPERS = ["delimited", "one-or-more", "zero-or-more", "opt-group", "suppress-list", "located", "nested-forward"]
+HIST_HISTORIES = ["none", "printed", "streamlined", "named-streamlined", "copied", "sibling-parsed", "printed-inner"]
+
+
+def hist_build(pp, wrapper, history):
+    key, value = pp.Word("abc"), pp.Word("0123456789")
+    setting = pp.Forward()
+    item = pp.Group(setting)
+    tail = pp.Suppress(pp.Opt(";"))
+    if wrapper == "delimited":
+        settings = pp.DelimitedList(item, ";")
+    elif wrapper == "one-or-more":
+        settings = pp.OneOrMore(item + tail)
+    elif wrapper == "zero-or-more":
+        settings = pp.Literal("{") + pp.ZeroOrMore(item + tail) + pp.Opt("}")
+    elif wrapper == "opt-group":
+        settings = pp.Opt(pp.Group(item + tail + pp.Opt(item)))
+    elif wrapper == "suppress-list":
+        settings = pp.Suppress(pp.OneOrMore(item + tail)) + pp.Empty()
+    elif wrapper == "located":
+        settings = pp.Located(pp.OneOrMore(item + tail))
+    else:
+        outer = pp.Forward()
+        outer <<= pp.OneOrMore(item + tail)
+        settings = pp.Group(outer)
+    if history == "printed":
+        assert str(settings)
+    elif history == "streamlined":
+        settings.streamline()
+    elif history == "named-streamlined":
+        settings.set_name("settings").streamline()
+    elif history == "copied":
+        settings = settings.copy()
+        settings.streamline()
+    elif history == "sibling-parsed":
+        try:
+            (pp.Literal("zz") | settings).parse_string("zz")
+        except pp.ParseBaseException:
+            pass
+    elif history == "printed-inner":
+        assert str(item)
+        item.streamline()
+    setting <<= key + "=" - value
+    return settings | pp.Empty()
+
+
+def hist_case(pp, wrapper, history, text):
+    """None, or a description of what went wrong"""
+    g = hist_build(pp, wrapper, history)
+    prefix = "{ " if wrapper == "zero-or-more" else ""
+    s = prefix + text
+    want = s.index("?")
+    try:
+        r = g.parse_string(s)
+        return f"returned {r.as_list()!r}: the failure behind the error stop was backtracked over"
+    except pp.ParseSyntaxException as ex:
+        return None if ex.loc == want else f"ParseSyntaxException at {ex.loc}, the failing element is at {want}"
+    except pp.ParseBaseException as ex:
+        return f"{type(ex).__name__} at {ex.loc} instead of ParseSyntaxException at {want}"
+
+
+HIST_TEXTS = ["a = 1; b = ?", "a = ?", "a=1;b=2;c=?", "a = 1 ; b = 2 ; c =\n ?"]
+
+
+def run_histories(ctx, pp):
+    n, bad = 0, 0
+    for w in HIST_WRAPPERS:
+        for h in HIST_HISTORIES:
+            for text in HIST_TEXTS:
+                n += 1
+                try:
+                    p = common.with_alarm(5, hist_case, pp, w, h, text)
+                except common.CaseTimeout:
+                    p = "does not return"
+                except Exception as ex:  # noqa
+                    p = f"internal {type(ex).__name__}: {ex}"
+                if p and bad < 3:
+                    bad += 1
+                    ctx.fail_input("failure behind an error stop did not abort the parse (build history)",
+                                   {"meta": "history", "wrapper": w, "history": h, "input": text},
+                                   "ParseSyntaxException at the '?'", p,
+                                   theorem="PP.Parse.errorstop_any_failure_is_syntax + *_never_swallows_fatal (oracle on the real objects)")
+    ctx.count_cases("oracle:build-histories", n, distinct_keys=[f"{w}|{h}" for w in HIST_WRAPPERS for h in HIST_HISTORIES],
+                    outcomes={"cases": n, "problems": bad})
+
+
 def run(ctx):
     pp = common.import_pyparsing()
     ctx.proof_leg("PPProofs.Props.C07", THEOREMS)
@@ -509,6 +602,7 @@ def run(ctx):
         ctx.fail_input("fatal exception / error stop backtracked over", {k: m[k] for k in m if k not in ("expected", "actual")},
                        m["expected"], m["actual"], theorem="C07 oracle B", how="harness.props.c07.oracle_b_job")
     run_oracles(ctx, 1)
+    run_histories(ctx, pp)
     lr_stream(ctx, 1)
     if ctx.broken and not ctx.fail_inputs:
         run_oracles(ctx, 5)
@@ -516,6 +610,9 @@ def run(ctx):
 
 
 def replay(data):
+    if data.get("replay_kind") == "failing-input" and data["case"].get("meta") == "history":
+        c = data["case"]
+        return bool(hist_case(common.import_pyparsing(), c["wrapper"], c["history"], c["input"]))
     if data.get("replay_kind") == "failing-input" and data["case"].get("ref"):
         c = data["case"]
         return bool(ref_job(dict(prog=c["prog"], root=c["root"], inputs=[c["input"]]))[1])
